@@ -208,10 +208,10 @@ int KSI_TLV_serialize(const KSI_TLV *tlv, unsigned char **outBuf, size_t *outBuf
 	if (tlv == NULL || outBuf == NULL || outBuf_len == NULL) return KSI_INVALID_ARGUMENT;
 	g_c04_ser_tlv = tlv;
 	if (g_c04_ser_res != KSI_OK) return g_c04_ser_res;
-	b = malloc(2);
+	b = malloc(3);
 	if (b == NULL) return KSI_OUT_OF_MEMORY;
-	g_c04_ser_buf = b; g_c04_ser_len = 2;
-	*outBuf = b; *outBuf_len = 2;
+	g_c04_ser_buf = b; g_c04_ser_len = 3;
+	*outBuf = b; *outBuf_len = 3;
 	return KSI_OK;
 }
 int g_c04_pki_res; unsigned g_c04_pki_calls; _Bool g_c04_pki_args_ok;
